@@ -20,6 +20,9 @@ FORMS = [
     ("[packed] [aligned] struct S { int a; float b; }\nexport function f(int a) -> int { S s; s.a = a; return s.a; }", {"optimize": True}),
     ("import \"std\";\nexport function f(float a) -> float { return a; }", {}),
     ("int g;\nexport function w(int v, float) -> void { g = v; }", {"optimize": True}),
+    # overloads of different arity: which one a call reaches must not depend on argument modifiers seen in earlier sources
+    ("function g(float a) -> float { return a; }\nfunction g(int a, int b) -> int { return a + b; }\nexport function f(int x) -> float { return g(x); }", {}),
+    ("function g(int a, int b, int c) -> int { return c; }\nfunction g(float a, float b) -> float { return b; }\nexport function f(int x, int y) -> float { return g(x, y); }", {"optimize": True}),
 ]
 
 
@@ -31,6 +34,8 @@ COLLIDE = [
     "function h(float q) -> float { return q; }\nfunction k(int a, int b, int c) -> int { return a; }\nfunction pick(float a) -> float { return a; }\n"
     "export function f(float z) -> float { return h(z) + pick(z); }\nexport function m(float z) -> float { return z; }\nexport function w(int z) -> int { return k(z, z, z); }",
     "int[4] g0; float3 g1; int[2][2] g2; float4x4 g3;\nexport function f0(int q) -> int { g0[1] = q; return g0[1]; }",
+    "export function f(__optional int a, int b) -> int { return a + b; }",
+    "export function f([packed] int a, __optional float b) -> float { return b; }",
 ]
 
 
